@@ -142,6 +142,12 @@ func runC09(c *core.Ctx) {
 		layout := layouts[r.Intn(len(layouts))]
 		w := newWorld(r, worldOpts{Exact: true, Hostile: true, Notes: true, Layout: layout, MinDays: 1, AltComment: true})
 		k := r.Intn(6)
+		if i%40 == 9 {
+			// a file that is mostly malformed (the wrong file given to lint, an export in another dialect): every
+			// one of its malformed lines is reported, the hundredth and the thousandth like the first
+			k = []int{64, 99, 100, 101, 130, 256, 300, 1100}[r.Intn(8)]
+			c.Count("files_with_64_to_1100_malformed", 1)
+		}
 		inLog := r.Intn(2) == 0
 		book, log := w.BookText, w.LogText
 		var planted [][2]string
@@ -185,7 +191,9 @@ func runC09(c *core.Ctx) {
 		if k > 0 {
 			c.Nontrivial(book, log)
 		}
-		c.Count(fmt.Sprintf("files_with_%d_malformed", k), 1)
+		if k <= 5 {
+			c.Count(fmt.Sprintf("files_with_%d_malformed", k), 1)
+		}
 
 		// lint, with and without --silent
 		var lintFirst string
@@ -234,6 +242,18 @@ func runC09(c *core.Ctx) {
 			}
 			if k > 0 && !silent {
 				lintFirst = msgs[0]
+			}
+			if i%8 == 3 {
+				// the real binary with something else on its standard input (a pipe left over by the calling script, the
+				// other file, nothing at all): lint reports on the file it was given
+				other := []string{"", "stray text on standard input\n  not: a number\n", files["food.yaml"] + files["log.yaml"]}[r.Intn(3)]
+				l1 := run.Exec(c.HR, args, run.ExecOpts{Dir: srv.Dir, Stdin: &other})
+				c.Eval(1)
+				c.Count("runs_lint_with_a_piped_standard_input", 1)
+				if l1.Out != res.Out || (l1.Exit == 0) != (res.Exit == 0) {
+					c.Violation("lint|depends-on-standard-input", fmt.Sprintf("lint FILE with %d bytes piped into standard input: exit %d, %d bytes of findings; without: exit %d, %d bytes", len(other), l1.Exit, len(l1.Out), res.Exit, len(res.Out)),
+						caseDoc{Files: files, Args: args, Note: "standard input is a pipe carrying: " + clip(other, 200), Expected: resDoc(res), Observed: resDoc(l1)})
+				}
 			}
 		}
 
